@@ -26,6 +26,19 @@ type rawEntry struct {
 	Name    []byte
 	Kind    string
 	Content []byte
+	Extra   []byte // extra field, written to the local and the central header alike
+}
+
+// unicodePathExtra is the Info-ZIP Unicode Path extra field (0x7075): version 1, CRC-32 of the header name it belongs to,
+// and the UTF-8 spelling of the name — here whatever the case wants a trusting reader to use instead of the header name.
+func unicodePathExtra(headerName, unicodeName []byte) []byte {
+	b := make([]byte, 4+5+len(unicodeName))
+	binary.LittleEndian.PutUint16(b[0:], 0x7075)
+	binary.LittleEndian.PutUint16(b[2:], uint16(5+len(unicodeName)))
+	b[4] = 1
+	binary.LittleEndian.PutUint32(b[5:], crc32.ChecksumIEEE(headerName))
+	copy(b[9:], unicodeName)
+	return b
 }
 
 func unixMode(kind string) uint32 {
@@ -54,6 +67,7 @@ func buildZip(entries []rawEntry) []byte {
 		csize, usize  uint32
 		method        uint16
 		name          []byte
+		extra         []byte
 		externalAttrs uint32
 	}
 	var dir []cd
@@ -73,7 +87,7 @@ func buildZip(entries []rawEntry) []byte {
 			comp = b.Bytes()
 			method = 8
 		}
-		c := cd{off: uint32(out.Len()), crc: crc32.ChecksumIEEE(data), csize: uint32(len(comp)), usize: uint32(len(data)), method: method, name: e.Name, externalAttrs: unixMode(e.Kind) << 16}
+		c := cd{off: uint32(out.Len()), crc: crc32.ChecksumIEEE(data), csize: uint32(len(comp)), usize: uint32(len(data)), method: method, name: e.Name, extra: e.Extra, externalAttrs: unixMode(e.Kind) << 16}
 		if e.Kind == kindDir {
 			c.externalAttrs |= 0x10 // MS-DOS directory bit as well
 		}
@@ -88,9 +102,10 @@ func buildZip(entries []rawEntry) []byte {
 		binary.LittleEndian.PutUint32(h[18:], c.csize)
 		binary.LittleEndian.PutUint32(h[22:], c.usize)
 		binary.LittleEndian.PutUint16(h[26:], uint16(len(e.Name)))
-		binary.LittleEndian.PutUint16(h[28:], 0)
+		binary.LittleEndian.PutUint16(h[28:], uint16(len(e.Extra)))
 		out.Write(h[:])
 		out.Write(e.Name)
+		out.Write(e.Extra)
 		out.Write(comp)
 		dir = append(dir, c)
 	}
@@ -108,11 +123,13 @@ func buildZip(entries []rawEntry) []byte {
 		binary.LittleEndian.PutUint32(h[20:], c.csize)
 		binary.LittleEndian.PutUint32(h[24:], c.usize)
 		binary.LittleEndian.PutUint16(h[28:], uint16(len(c.name)))
-		// extra, comment, disk, internal attrs = 0
+		binary.LittleEndian.PutUint16(h[30:], uint16(len(c.extra)))
+		// comment, disk, internal attrs = 0
 		binary.LittleEndian.PutUint32(h[38:], c.externalAttrs)
 		binary.LittleEndian.PutUint32(h[42:], c.off)
 		out.Write(h[:])
 		out.Write(c.name)
+		out.Write(c.extra)
 	}
 	cdSize := out.Len() - cdStart
 	var e [22]byte
